@@ -2,13 +2,30 @@
     N, Z, positive, nat stay as extracted inductives; no Extract Constant of
     our own. *)
 From Coq Require Import ZArith List.
-From Copia Require Import Model.Checksum.
+From Copia Require Import Model.Checksum Model.Delta.
+Import ListNotations.
 Require Extraction.
 Require Import ExtrOcamlBasic.
 Set Extraction Optimize.
+
+(** Instances with H := identity (only equality of digests matters to the scan
+    and to patch; see DESIGN.md section 3). *)
+Definition H_id (x : list Z) : list Z := x.
+Definition deq_id : forall a b : list Z, {a = b} + {a <> b} := list_eq_dec Z.eq_dec.
+Definition m_signature (bs : nat) (basis : list Z) := gen_signature (list Z) H_id bs basis.
+Definition m_delta (bs : nat) (sg : signature (list Z)) (src : list Z) :=
+  compute_delta_fast (list Z) H_id deq_id bs sg src.
+Definition m_patch (checked verify : bool) (basis : list Z) (d : delta (list Z)) :=
+  patch (list Z) H_id deq_id checked verify basis d.
+Definition beq_id (a b : list Z) : bool := if deq_id a b then true else false.
+Definition m_greedy (bs : nat) (basis src : list Z) : Z :=
+  match src with [] => 0%Z | _ =>
+    match blocks bs basis with [] => Z.of_nat (length src)
+    | _ => greedy_lit bs beq_id (S (length src)) (full_blocks bs basis) src end end.
 
 Extraction "model.ml"
   rc_new rc_roll rc_push rc_digest ra rb rcount
   frc_new frc_roll frc_push frc_digest fcount
   rc_new_ck rc_roll_ck rc_push_ck frc_new_ck frc_roll_ck frc_push_ck
-  spec_digest_exec sums.
+  spec_digest_exec sums
+  m_signature m_delta m_patch m_greedy lits out_len.
